@@ -123,7 +123,7 @@ func issue(m *mon.M, r *rand.Rand, d *cr.Cert, subj *poolKey, ca *caVariant, via
 // parsePub calls ssh.ParsePublicKey and verifies that the input blob was not modified.
 func parsePub(m *mon.M, b []byte) (ssh.PublicKey, error) {
 	snap := append([]byte(nil), b...)
-	k, err := parsePub(m, b)
+	k, err := ssh.ParsePublicKey(b)
 	if !bytes.Equal(snap, b) {
 		m.Violation("input-modified:ParsePublicKey", map[string]any{"before": mon.FullHex(snap), "after": mon.FullHex(b)})
 		copy(b, snap)
